@@ -23,6 +23,7 @@ func checkC17(r *Report, p *Program) {
 	revisionCopies(r, p, "R17.1b")
 	keyCompleteness(r, p, "R17.5")
 	checkThenAct(r, p, "R17.4")
+	noNewCrossSyncState(r, p, "R17.6")
 }
 
 func cacheTaint(p *Program) *engine.Taint {
@@ -70,7 +71,7 @@ func r17_1(r *Report, p *Program) {
 				sees = true
 			}
 		}
-		for _, b := range f.Blocks {
+		for _, b := range engine.BlocksInl(f) {
 			for _, in := range b.Instrs {
 				if v, ok := in.(ssa.Value); ok && !sees {
 					if _, isCall := in.(*ssa.Call); isCall && t.Tainted(f, v) {
@@ -129,7 +130,7 @@ func r17_3(r *Report, p *Program) {
 		return
 	}
 	var goI *ssa.Go
-	for _, b := range f.Blocks {
+	for _, b := range engine.BlocksInl(f) {
 		for _, in := range b.Instrs {
 			if g, ok := in.(*ssa.Go); ok {
 				goI = g
@@ -144,7 +145,7 @@ func r17_3(r *Report, p *Program) {
 	ok, why := cl != nil && len(cl.Params) == 1, "the goroutine body does not take its revision as a parameter"
 	if ok {
 		// writes: only fields of its own parameter; no stores to captured variables
-		for _, b := range cl.Blocks {
+		for _, b := range engine.BlocksInl(cl) {
 			for _, in := range b.Instrs {
 				st, isS := in.(*ssa.Store)
 				if !isS {
@@ -166,7 +167,7 @@ func r17_3(r *Report, p *Program) {
 				}
 			}
 		}
-		for _, b := range cl.Blocks {
+		for _, b := range engine.BlocksInl(cl) {
 			for _, in := range b.Instrs {
 				if mu, isMU := in.(*ssa.MapUpdate); isMU && !engine.PointsInto(mu.Map, cl.Params[0]) {
 					if _, local := engine.ResolveLocal(mu.Map).(*ssa.MakeMap); !local {
@@ -182,7 +183,7 @@ func r17_3(r *Report, p *Program) {
 			ok, why = false, "the goroutine is not handed the loop's own revision"
 		}
 		hasDone := false
-		for _, b := range cl.Blocks {
+		for _, b := range engine.BlocksInl(cl) {
 			for _, in := range b.Instrs {
 				if d, isD := in.(*ssa.Defer); isD && strings.HasSuffix(engine.CallKey(d.Common()), "WaitGroup.Done") {
 					hasDone = true
@@ -202,7 +203,7 @@ func r17_3(r *Report, p *Program) {
 	if okW {
 		wi := waits[0].Instr.(ssa.Instruction)
 		// every read of syncResult/syncError/desiredChildMap in f (outside the goroutine) is after Wait
-		for _, b := range f.Blocks {
+		for _, b := range engine.BlocksInl(f) {
 			for _, in := range b.Instrs {
 				fa, isFA := in.(*ssa.FieldAddr)
 				if !isFA {
